@@ -53,12 +53,15 @@ THEOREMS = [
     'CpProofs.C11.C11_links_prefix_free',
     'CpProofs.C11.C11_links_linkFree',
     'CpProofs.C11.C11_links_weak_partial',
-    'CpProofs.C11.C11_links_weak_partial_static',
     'CpProofs.C11.C11_links_weak_normalised',
+    'CpProofs.C11.under_staticTarget',
+    'CpProofs.C11.components_normpath_snoc_slash',
+    'CpProofs.C11.C11_links_weak',
+    'CpProofs.C11.C11_links_session_contained',
+    'CpProofs.C11.C11_links_weak_session',
     'CpProofs.C11.C11_links_strong_false',
     'CpProofs.C11.C11_links_weak_false',
     'CpProofs.C11.C11_links_weak_session_false',
-    'CpProofs.C11.C11_links_weak_partial_session',
     # the concrete percent-decoder; characters that do not separate; staticfile; __len__
     'CpProofs.C11.C11_static_contained_unquote',
     'CpProofs.C11.C11_refused_untouched_unquote',
@@ -95,10 +98,12 @@ LEVEL_TEXT = ('Proved in Lean for every configured dir/root, section, request pa
               'Kernel side: the path walk is modelled with symbolic links (finite map, fuel = 40 link expansions); if the '
               'walk of such a path meets no link, or the string handed over has no ".." component and no link sits at / '
               'above / below the root, the object reached is at or below the root (C11_links_prefix_free, '
-              'C11_links_weak_partial[_static|_session]). With a directory link OUTSIDE the root and ".." in the request '
-              'the code reaches outside objects (lexical test, un-normalised string to the kernel): negations '
-              'C11_links_weak_false / C11_links_weak_session_false with witnesses, replayed on the real code as known '
-              'findings F32 / F32b; C11_links_weak_normalised shows that handing the normalised name over would close it. '
+              'C11_links_weak_partial). Since the F32 / F32b repair staticdir and _get_file_path hand the NORMALISED name '
+              'they tested to the OS, so the weak reading (no link at / above / below the root => every object reached '
+              'is inside, whatever links exist elsewhere) is proved at full strength for every request and session id: '
+              'C11_links_weak, C11_links_weak_session. The refutations C11_links_weak_false / '
+              'C11_links_weak_session_false are kept for the pre-repair definitions (staticdirPreF32, sessOpPreF32) with '
+              'their witnesses, which are replayed on the real code as regressions. '
               'The pre-repair string-prefix tests are kept as definitions with proved counterexamples (F10, F11). Partial: '
               'the index name is assumed plain (trusted configuration; necessity proved); cookie parsing, the regular '
               'expression engine, filelock and the kernel are validated by the differential run only.')
@@ -120,8 +125,9 @@ ASSUMPTIONS = [
     'POSIX paths, configured dir does not start with "~" (expanduser not modelled)',
     'the configured index name is a plain relative name (no "..", not absolute): configuration is trusted',
     'no conditional request headers (validate_since can end serve_file between stat and open)',
-    'the statement is read for symlink-free surroundings (its own quantifier); links inside the root are the '
-    'operator\'s content; what happens with links outside the root is recorded as F32 / F32b',
+    'links the operator puts inside the root (or on the way to it) are the operator\'s content (weak reading); a '
+    'request must not reach an outside object in any other way, also when links exist outside the root (F32 / F32b '
+    'repaired)',
 ]
 RULE = ('URL paths / cookie values / session ids from a traversal grammar (.., %2e%2e, ..%2f, %252e and other decode-order '
         'variants, //, leading /, backslash and drive letters, ";" parameters, NUL, over-long UTF-8, paths beyond PATH_MAX, '
@@ -416,8 +422,7 @@ def run(ctx):
         phase[name] = round(time.time() - t0 - sum(v for k, v in phase.items() if k != 'lean_prepare'), 1)
     tap_selftest(ctx)
     if not os.environ.get('C11_NO_CORPUS'):      # self-test switch: judge the generators alone
-        check_cases(ctx, corpus_cases())
-        check_cases(ctx, gen.F32_WITNESSES)         # known findings: replayed on every run
+        check_cases(ctx, corpus_cases())            # incl. the witnesses of F10, F11, F32, F32b as regressions
     procs = min(4, os.cpu_count() or 1) if ctx.quick() else 16
     rng = ctx.rng
     cases = []
